@@ -207,7 +207,7 @@ func ruleR12(c *Ctx, prop string) {
 					fmt.Sprintf("extractor requests %d blocks with %d dims or returns block j as result k != j: gate matrices are cut from the wrong rows of the packed tensor", e.n, e.dims))
 			}
 			if len(fs) < 2 {
-				c.undecided("R12", "R12:P1:floor:"+sp.name, c.pos(apply.Pos()), "fewer than 2 block extractors found")
+				c.undecided("R12", "R12:P1:floor:"+sp.name, c.pos(apply.Pos()), fmt.Sprintf("%s no longer cuts its packed tensors with at least two block extractors (methods returning the results of ops.ExtractMatrices in order; found %d): which rows of W/R/B reach which gate cannot be followed - e.g. the two bias halves Wb/Rb are combined by hand", sp.name, len(fs)))
 			}
 			c.checkGateCalls(oi, sp.name, sp.nGates, exs)
 			c.checkGemmLiterals(oi, sp.name)
@@ -335,7 +335,7 @@ func (c *Ctx) checkGateCalls(oi *opInfo, name string, nGates int64, exs map[*ssa
 	}
 	c.counts["R12.gate_calls"] += n
 	if int64(n) < nGates {
-		c.undecided("R12", "R12:P3:floor:"+name, c.pos(apply.Pos()), fmt.Sprintf("%d gate calls recognised for %d gates", n, nGates))
+		c.undecided("R12", "R12:P3:floor:"+name, c.pos(apply.Pos()), fmt.Sprintf("%d gate calls recognised for %d gates: a gate computation must receive W[k], R[k] and the bias pair {B[k], B[k+gates]} of one slot as results of the block extractors", n, nGates))
 		return
 	}
 	// every slot 0..nGates-1 used exactly once
